@@ -6,7 +6,7 @@
 (* clauses).  No variables: used by Book.tla (model checking, generation), *)
 (* BookTrace.tla (validation of recorded traces), Market.tla and Env.tla.  *)
 (***************************************************************************)
-EXTENDS BookOps, SequencesExt, TLC
+EXTENDS BookOps, TLC
 
 \* ---- labels ---------------------------------------------------------------
 \* [op |-> "create"|"cap", dt, side, vol, tr, price (None = market), ret]
@@ -138,7 +138,7 @@ C01_RestsLast(old, new, lbl) ==
              => new.qn[i + 1] < new.qn[a + 1]
 
 \* ---- C02 views ----------------------------------------------------------
-C02_ViewsAgree(bk) == ViewsQ(bk) = ViewsO(bk.orders, bk.tick)
+C02_ViewsAgree(bk) == ViewsQ(bk) = ViewsO(bk.orders, bk.tick, bk.nlev)
 
 C02_ViewsConsistent(bk) ==
   LET v == ViewsQ(bk) IN
@@ -262,11 +262,11 @@ C12_LevelsAccount(bk) ==
   \A s \in {"B", "A"} :
     LET lev == LevelsQ(bk, s)
         inrange == {i \in ActiveIds(bk.orders, s) :
-                      \E k \in 0..(NLevels - 1) :
+                      \E k \in 0..(bk.nlev - 1) :
                         bk.orders[i].price = (IF s = "B" THEN BestBid(bk) - k * bk.tick
                                                           ELSE BestAsk(bk) + k * bk.tick)}
-    IN /\ SumSeq([k \in 1..NLevels |-> lev[k][1]]) = SumOver(inrange, VolsO(bk.orders))
-       /\ SumSeq([k \in 1..NLevels |-> lev[k][2]]) = Cardinality(inrange)
+    IN /\ SumSeq([k \in 1..bk.nlev |-> lev[k][1]]) = SumOver(inrange, VolsO(bk.orders))
+       /\ SumSeq([k \in 1..bk.nlev |-> lev[k][2]]) = Cardinality(inrange)
 
 \* ---- C13 trading disabled -------------------------------------------------
 C13_NoTradesWhileOff(old, new, lbl) ==
